@@ -121,11 +121,13 @@ class SharedMemoryFileBufferedCollection(FileBufferedCollection):
             else:
                 # If the contents have not been changed since the initial read,
                 # we don't need to rewrite it.
+                conflict = False
                 try:
                     # Validate that the file hasn't been changed by
                     # something else.
                     if cached_data["modified"]:
                         if cached_data["metadata"] != self._get_file_metadata():
+                            conflict = True
                             raise MetadataError(self._filename, cached_data["contents"])
                         # The shared store holds every write made through any
                         # instance bound to this file; this instance may not
@@ -140,7 +142,10 @@ class SharedMemoryFileBufferedCollection(FileBufferedCollection):
                     # its representation on disk.
                     if cached_data["modified"]:
                         type(self)._CURRENT_BUFFER_SIZE -= 1
-                    if not force:
+                    if not force or conflict:
+                        # A conflicting copy must not stay in the buffer with
+                        # refreshed metadata: a later flush would silently
+                        # overwrite the file that was changed externally.
                         del type(self)._buffer[self._filename]
                     else:
                         # Have to update the metadata on a force flush because
